@@ -551,12 +551,13 @@ def compile_pair(text, mode2D):
         def wrapped(scenario, verbosity):
             before = [id(o.position._conditioned) for o in scenario.objects]
             try:
-                return fn(scenario, verbosity)
+                r = fn(scenario, verbosity)
+                changed.setdefault("reached", []).append(stage)
+                return r
             finally:
                 for i, o in enumerate(scenario.objects):
                     if id(o.position._conditioned) != before[i]:
                         changed.setdefault(i, []).append(stage)
-                changed.setdefault("reached", []).append(stage)
 
         return wrapped
 
@@ -886,9 +887,9 @@ def check_program(item):
     with scene_seam():
         _S.aux_n = params["aux_n"]
         sideU = Side(U, conditioned=False)
-        focusN = params["N3"] if spec.get("dim", 2) == 3 else params["N2"]
-        sideU.prepare(lambda i: focusN, params["sampler_cap"])
         nrand = len(sideU.bases)
+        focusN = params["N_pair"] if nrand > 1 else (params["N3"] if spec.get("dim", 2) == 3 else params["N2"])
+        sideU.prepare(lambda i: focusN, params["sampler_cap"])
         evU = Evaluator(sideU, params["N_partner"], params["max_evals"])
         # partner lists: a coarse sub-lattice is used when another object is the focus
         full = {i: c for i, c in sideU.cands.items()}
@@ -1010,7 +1011,17 @@ def check_program(item):
 
         evP = None
         if not p_failed:
-            sideP.prepare(lambda i: focusN, params["sampler_cap"])
+            # the pruned regions are only checked for "nothing added": half the resolution, and
+            # never more candidates than the original region gave (voxel slices have many triangles)
+            NP = max(2, focusN // 2)
+            sideP.prepare(lambda i: NP, params["sampler_cap"])
+            for i, (reg, off, pir) in sideP.bases.items():
+                n = NP
+                while sideP.cands[i] is not None and n > 2 and len(sideP.cands[i]) > max(300, len(full.get(i) or ())):
+                    n = max(2, n // 2)
+                    pts, nx, cut = sampler_candidates(pir.region, n, params["sampler_cap"])
+                    sideP.cands[i] = pts
+                    sideP.stats[i] = (nx, len(pts), cut)
             evP = Evaluator(sideP, params["N_partner"], params["max_evals"])
             fullP = {i: c for i, c in sideP.cands.items()}
             coarseP = {}
@@ -1123,9 +1134,12 @@ def check_program(item):
 # =========================================================================================
 # driver
 # =========================================================================================
+# N2 / N3: lattice of the position sampler of a program with ONE positioned object (2-D / 3-D
+# region); N_pair: lattice of the focus object when several objects are positioned, N_partner:
+# lattice of the other objects meanwhile; aux_n: quantiles of every other continuous draw
 PARAMS = {
-    "quick": dict(N2=16, N3=8, N_partner=3, aux_n=2, sampler_cap=200000, max_evals=40000),
-    "thorough": dict(N2=40, N3=16, N_partner=4, aux_n=3, sampler_cap=400000, max_evals=400000),
+    "quick": dict(N2=16, N3=8, N_pair=8, N_partner=2, aux_n=2, sampler_cap=200000, max_evals=60000),
+    "thorough": dict(N2=40, N3=16, N_pair=16, N_partner=3, aux_n=3, sampler_cap=400000, max_evals=600000),
 }
 
 
